@@ -1103,6 +1103,106 @@ def _probably_different(x, y):
     return False
 
 
+def _collect_dens(e, acc, seen):
+    if e.get_id() in seen:
+        return
+    seen.add(e.get_id())
+    if z3.is_app(e) and e.decl().kind() == z3.Z3_OP_DIV:
+        acc.append(e.arg(1))
+    for c in e.children():
+        _collect_dens(c, acc, seen)
+
+
+def _to_sympy(e, syms, nonzero):
+    """z3 real/int arithmetic term without uninterpreted applications or if-then-else -> sympy expression (None if unsupported).
+    x / d is a genuine quotient only for denominators proved non-zero (ids in `nonzero`); otherwise 1/d is kept as an opaque
+    symbol (z3's division is total: 1/0 is some fixed value) and x/d with x != 1 is not supported."""
+    import sympy
+    if z3.is_rational_value(e):
+        return sympy.Rational(e.numerator_as_long(), e.denominator_as_long())
+    if z3.is_int_value(e):
+        return sympy.Integer(e.as_long())
+    if z3.is_const(e) and e.decl().kind() == z3.Z3_OP_UNINTERPRETED:
+        k = ("c", e.get_id())
+        if k not in syms:
+            syms[k] = sympy.Symbol("v%d" % len(syms))
+        return syms[k]
+    if not z3.is_app(e):
+        return None
+    k = e.decl().kind()
+    ch = e.children()
+    if k == z3.Z3_OP_TO_REAL:
+        return _to_sympy(ch[0], syms, nonzero)
+    if k == z3.Z3_OP_DIV:
+        num = _to_sympy(ch[0], syms, nonzero)
+        if num is None:
+            return None
+        if ch[1].get_id() in nonzero:
+            den = _to_sympy(ch[1], syms, nonzero)
+            return None if den is None else num / den
+        key = ("inv", z3.simplify(ch[1]).get_id())
+        if key not in syms:
+            syms[key] = sympy.Symbol("inv%d" % len(syms))
+        if num == 1:
+            return syms[key]
+        return None
+    args = [_to_sympy(c, syms, nonzero) for c in ch]
+    if any(a_ is None for a_ in args):
+        return None
+    if k == z3.Z3_OP_ADD:
+        return sympy.Add(*args)
+    if k == z3.Z3_OP_MUL:
+        return sympy.Mul(*args)
+    if k == z3.Z3_OP_SUB:
+        r = args[0]
+        for a_ in args[1:]:
+            r = r - a_
+        return r
+    if k == z3.Z3_OP_UMINUS:
+        return -args[0]
+    if k == z3.Z3_OP_POWER and z3.is_int_value(ch[1]) and ch[1].as_long() >= 0:
+        return args[0] ** ch[1].as_long()
+    return None
+
+
+def _rational_identity(g, hyps):
+    """g is (an implication of) an equality of two rational functions of the constants that is an identity; quotients are
+    formed only over denominators PROVED non-zero under the hypotheses.  Decided by sympy's rational normal form (cancel)."""
+    pre = []
+    while z3.is_implies(g):
+        pre.append(g.arg(0))
+        g = g.arg(1)
+    if not (z3.is_eq(g) and g.arg(0).sort().kind() in (z3.Z3_INT_SORT, z3.Z3_REAL_SORT)) or len(str(g)) > 20000:
+        return False
+    dens = []
+    _collect_dens(g, dens, set())
+    nonzero, tried = set(), set()
+    for d in dens:
+        if d.get_id() in tried:
+            continue
+        tried.add(d.get_id())
+        if z3.is_rational_value(d) or z3.is_int_value(d):
+            if not z3.is_true(z3.simplify(d == 0)):
+                nonzero.add(d.get_id())
+            continue
+        sv = z3.Solver()
+        sv.set("timeout", 1500)
+        sv.add(*hyps)
+        sv.add(*pre)
+        sv.add(d == 0)
+        if sv.check() == z3.unsat:
+            nonzero.add(d.get_id())
+    syms = {}
+    a, b = _to_sympy(g.arg(0), syms, nonzero), _to_sympy(g.arg(1), syms, nonzero)
+    if a is None or b is None:
+        return False
+    import sympy
+    try:
+        return sympy.cancel(sympy.together(a - b)) == 0
+    except Exception:
+        return False
+
+
 def _ite_conditions(e, acc, seen):
     if e.get_id() in seen:
         return
@@ -1252,6 +1352,9 @@ def _congruence_abstracted(ob, timeout_ms, poly_only=False):
         return dict(status="unsat", backend="congruence-abstraction+polynomial-normal-form", model=None)
     if _poly_identity_by_cases(goal, light):
         return dict(status="unsat", backend="congruence-abstraction+case-split+polynomial-normal-form", model=None)
+    light_abs = [h for h in hyps if len(str(h)) <= 400]
+    if _rational_identity(goal, light_abs):
+        return dict(status="unsat", backend="congruence-abstraction+rational-normal-form(sympy)", model=None)
     if poly_only:
         return None
     import os as _os
